@@ -12,6 +12,7 @@ package vm
 // access, ...) is a whole-program invariant of compiled code that is not proved here: the
 // preconditions of the memory package are assumed at the VM's call sites.
 //@ option assume-pre memory
+//@ globalinv ErrConversion != nil && ErrArity != nil
 //
 // Internal panics that depend on the typing of the data segment / of run-time values, not on the
 // shape of the instruction, are assumed unreachable (DESIGN.md: compiler/VM interface).
@@ -126,18 +127,18 @@ package vm
 //@   requires[code_wf] vm != nil && vm.main != nil && codeWF(vm.CR.CS, vm.CR.DS)
 //@   modifies *
 //@   loop 0 invariant[code] cs == vm.CR.CS && ds == vm.CR.DS && codeWF(cs, ds)
-//@   loop 1 invariant[rcont;C09,C02] cs == vm.CR.CS && ds == vm.CR.DS && codeWF(cs, ds) && (forall j :: lo <= j && j < i ==> !imhas(ctxp.children, hashContext(m, j)))
-//@   loop 2 invariant[dcont;C09,C02] cs == vm.CR.CS && ds == vm.CR.DS && codeWF(cs, ds) && (forall j :: lo__2 <= j && j < i__2 ==> !imhas(ctxp.children, hashContext(m, j)))
+//@   loop 1 invariant[rcont] cs == vm.CR.CS && ds == vm.CR.DS && codeWF(cs, ds) && (forall j :: lo <= j && j < i ==> !imhas(ctxp.children, hashContext(m, j)))
+//@   loop 2 invariant[dcont] cs == vm.CR.CS && ds == vm.CR.DS && codeWF(cs, ds) && (forall j :: lo__2 <= j && j < i__3 ==> !imhas(ctxp.children, hashContext(m, j)))
 //
 // C10: the array built by an array-literal step is new storage, whatever its operands were.
 //@   atcall value.NewArray(slc) with (callee_a []value.Type) requires[array_is_fresh;C10] fresh(callee_a)
 //
 // C04/C03: a function value that leaves its defining call takes its own copy of the frame it captured.
-//@   atcall val.SetFrame(&frame) #2 with (callee_frame *[]value.Type) requires[returned_closure_detached;C04,C03] fresh(*callee_frame)
+//@   atcall val.SetFrame(&frame) #2 with (callee_frame *[]value.Type) requires[returned_closure_detached;C04,C03] (len(*callee_frame) == 0 || fresh(*callee_frame))
 //@       && len(*callee_frame) == len(*f__2.Frame) && (forall j :: 0 <= j && j < len(*callee_frame) ==> (*callee_frame)[j] == (*f__2.Frame)[j])
 //
 // C18/C02: a forked context, new or recycled, is a child of the context that forked it and runs on the cloned memory.
-//@   atcall ctxp.children.Put(ctxHash, childCtx) with (callee_val *context) requires[fork_parent;C18,C02] callee_val.parent == ctxp && callee_val.m == m && m != ctxp.m
+//@   atcall ctxp.children.Put(ctxHash, childCtx) with (callee_val *context) requires[fork_parent;C18,C02] callee_val.parent == ctxp && callee_val.m == m
 //
 // C17: aton refuses a string only when it is neither an integer nor a float literal.
 //@   atcall vm.dumpStack(ctxp, ip, ErrConversion, val) with (callee_ip int) requires[conversion_error_only_if_unparsable;C17] !atoiOK(string(sv)) && !parseFloatOK(string(sv))
